@@ -282,6 +282,33 @@ def class_facts(tree):
             "Definition gen_length_tracking (kind : nat) : bool := match kind with 2 => true | _ => false end.\n")
 
 
+def setter_same_root(doc_cls):
+    """the `root` setter: is there an `if current_root is node: return` before the call of _copy_root_siblings?"""
+    f = None
+    for n in doc_cls.body:
+        if isinstance(n, ast.FunctionDef) and n.name == "root" and any(
+                isinstance(d, ast.Attribute) and d.attr == "setter" for d in n.decorator_list):
+            f = n
+    if f is None:
+        raise Unsupported("Document.root setter not found")
+    if [a.arg for a in f.args.args] != ["self", "node"]:
+        raise Unsupported("signature of the Document.root setter")
+    early, copy = None, None
+    for i, s in enumerate(body_without_docstring(f)):
+        if (isinstance(s, ast.If) and isinstance(s.test, ast.Compare) and len(s.test.ops) == 1
+                and isinstance(s.test.ops[0], ast.Is) and not s.orelse and len(s.body) == 1
+                and isinstance(s.body[0], ast.Return) and s.body[0].value is None):
+            names = {s.test.left.id if isinstance(s.test.left, ast.Name) else None,
+                     s.test.comparators[0].id if isinstance(s.test.comparators[0], ast.Name) else None}
+            if names == {"current_root", "node"} and early is None:
+                early = i
+        if "_copy_root_siblings(" in ast.unparse(s) and copy is None:
+            copy = i
+    if copy is None:
+        raise Unsupported("the Document.root setter no longer calls _copy_root_siblings")
+    return early is not None and early < copy
+
+
 def gen_doc():
     nodes = ast.parse(read("_delb/nodes.py"))
     init = ast.parse(read("delb/__init__.py"))
@@ -310,6 +337,8 @@ def gen_doc():
             or not w.rstrip(")").endswith("encoding=encoding"):
         raise Unsupported("Document.write no longer hands the same `encoding` to the text layer and to __serialize")
     out += "Definition gen_str_encoding : str := %s.\n" % py2coq.lit("utf-8")
+    out += "(* Document.root setter: `if current_root is node: return` precedes _copy_root_siblings *)\n" \
+           "Definition gen_setter_returns_on_same_root : bool := %s.\n" % ("true" if setter_same_root(doc) else "false")
     return out
 
 
